@@ -88,4 +88,209 @@ theorem locate_spec (target : Nat) (segs : List Seg) (hpos : SegsPos segs) (off0
     · simp only [hlt, if_false]
       exact ⟨0, s, rfl, rfl, hs, by simp [fileSize]; omega⟩
 
+theorem fileSize_split (segs : List Seg) (k : Nat) :
+    fileSize segs = fileSize (segs.take k) + fileSize (segs.drop k) := by
+  induction segs generalizing k with
+  | nil => simp [fileSize]
+  | cons s rest ih =>
+    cases k with
+    | zero => simp [fileSize]
+    | succ k =>
+      rw [List.take_succ_cons, List.drop_succ_cons, fileSize_cons, fileSize_cons, ih k]; omega
+
+theorem fileSize_take_succ (segs : List Seg) (k : Nat) (s : Seg) (hk : segs[k]? = some s) :
+    fileSize (segs.take (k + 1)) = fileSize (segs.take k) + s.length := by
+  induction segs generalizing k with
+  | nil => simp at hk
+  | cons t rest ih =>
+    cases k with
+    | zero => simp at hk; subst hk; simp [fileSize]
+    | succ k =>
+      simp at hk
+      rw [List.take_succ_cons, fileSize_cons, List.take_succ_cons, fileSize_cons, ih k hk]; omega
+
+/-- The pointer invariant: a pointer is stale (Seek changed its offset: recomputed on next use), or at
+or beyond the end of the file, or its (segment index, offset in segment) pair names its offset —
+possibly sitting exactly at the end of the segment. -/
+def PtrOK (segs : List Seg) (p : Ptr) : Prop :=
+  p.stale = true ∨ fileSize segs ≤ p.off ∨
+  ∃ s, segs[p.idx]? = some s ∧ p.segOff ≤ s.length ∧ fileSize (segs.take p.idx) + p.segOff = p.off
+
+/-- what `seek` establishes before the end of the file -/
+structure Located (segs : List Seg) (p : Ptr) (s : Seg) : Prop where
+  seg : segs[p.idx]? = some s
+  lt : p.segOff < s.length
+  pos : fileSize (segs.take p.idx) + p.segOff = p.off
+  fresh : p.stale = false
+
+theorem ptrOK_init (segs : List Seg) : PtrOK segs {} := by
+  cases segs with
+  | nil => right; left; simp [fileSize]
+  | cons s rest => right; right; exact ⟨s, rfl, by simp, by simp [fileSize]⟩
+
+theorem ptrOK_fileSeek (segs : List Seg) (p : Ptr) (off : Nat) (h : PtrOK segs p) : PtrOK segs (fileSeek p off) := by
+  unfold fileSeek
+  split
+  · exact h
+  · left; rfl
+
+theorem seek_ge (segs : List Seg) (p : Ptr) (hge : fileSize segs ≤ p.off) :
+    seek segs p = some { p with idx := segs.length, segOff := 0, stale := false } := by
+  simp [seek, hge]
+
+theorem seek_lt (segs : List Seg) (hpos : SegsPos segs) (p : Ptr) (hok : PtrOK segs p)
+    (hlt : p.off < fileSize segs) :
+    ∃ p1 s, seek segs p = some p1 ∧ p1.off = p.off ∧ Located segs p1 s := by
+  have hnge : ¬ fileSize segs ≤ p.off := by omega
+  unfold seek
+  simp only [hnge, if_false]
+  cases hst : p.stale with
+  | true =>
+    simp only [Bool.not_true, Bool.false_eq_true, if_false]
+    obtain ⟨k, s, e1, e2, e3, e4⟩ := locate_spec p.off segs hpos 0 0 (Nat.zero_le _) (by omega)
+    refine ⟨_, s, rfl, rfl, ?_⟩
+    exact ⟨by simpa [e1] using e2, e3, by simp only [e1]; simpa using e4, rfl⟩
+  | false =>
+    simp only [Bool.not_false, if_true]
+    rcases hok with h | h | ⟨s, hs, hle, hp⟩
+    · rw [hst] at h; cases h
+    · omega
+    · rw [hs]
+      simp only
+      by_cases hend : s.length ≤ p.segOff
+      · simp only [hend, if_true]
+        have heq : p.segOff = s.length := by omega
+        have hts := fileSize_take_succ segs p.idx s hs
+        have hsplit := fileSize_split segs (p.idx + 1)
+        -- there is a next segment, because the offset is before the end of the file
+        cases hd : segs.drop (p.idx + 1) with
+        | nil =>
+          have hz : fileSize (segs.drop (p.idx + 1)) = 0 := by rw [hd]; rfl
+          omega
+        | cons t rest =>
+          have ht : segs[p.idx + 1]? = some t := by
+            have := List.getElem?_drop (xs := segs) (i := p.idx + 1) (j := 0)
+            rw [hd] at this; simpa using this.symm
+          have htpos : 0 < t.length := hpos t (List.mem_of_getElem? ht)
+          exact ⟨_, t, rfl, rfl, ⟨ht, htpos, by simp only; omega, by simp⟩⟩
+      · simp only [hend, if_false]
+        exact ⟨p, s, rfl, rfl, ⟨hs, by omega, hp, hst⟩⟩
+
+/-- storedSegment.ReadAt over a verified block store (BlockCache.ReadAt on an error-free entry that
+holds block `s.blk`) -/
+def vRead (blocks : Nat → Bytes) : Seg → Nat → Nat → Bytes × Option Err :=
+  fun s pl off => segReadAt (fun l o => readAtEntry { data := blocks s.blk, err := none } o l) s pl off
+
+theorem vRead_eq (blocks : Nat → Bytes) (s : Seg) (pl off : Nat) (hoff : off ≤ s.length)
+    (hin : s.offset + s.length ≤ (blocks s.blk).length) :
+    vRead blocks s pl off = (((segSlice blocks s).drop off).take pl,
+      if s.length - off < pl then some .eof else none) := by
+  unfold vRead segSlice
+  exact segReadAt_verified (blocks s.blk) s pl off hoff hin
+
+theorem take_take_length (X : Bytes) (n : Nat) : X.take (X.take n).length = X.take n := by
+  rw [List.length_take]
+  by_cases h : n ≤ X.length
+  · rw [Nat.min_eq_left h]
+  · rw [Nat.min_eq_right (by omega), List.take_of_length_le (Nat.le_refl _), List.take_of_length_le (by omega)]
+
+/-- File.Read at or beyond the end of the file: no bytes, EOF, offset unchanged. -/
+theorem fileRead_at_end (blocks : Nat → Bytes) (segs : List Seg) (p : Ptr) (plen : Nat)
+    (hge : fileSize segs ≤ p.off) :
+    ∃ p', fileRead (vRead blocks) segs p plen = some ([], some .eof, p') ∧ p'.off = p.off ∧ PtrOK segs p' := by
+  unfold fileRead
+  rw [seek_ge segs p hge]
+  simp only
+  have : segs[segs.length]? = none := by simp
+  rw [this]
+  exact ⟨_, rfl, rfl, Or.inr (Or.inl hge)⟩
+
+/-- One File.Read before the end of the file. -/
+theorem fileRead_before_end (blocks : Nat → Bytes) (segs : List Seg) (hin : SegsIn blocks segs)
+    (hpos : SegsPos segs) (p : Ptr) (hok : PtrOK segs p) (plen : Nat) (hlt : p.off < fileSize segs) :
+    ∃ d e p', fileRead (vRead blocks) segs p plen = some (d, e, p') ∧
+      d = ((fileContent blocks segs).drop p.off).take d.length ∧
+      (∃ s o, o < s.length ∧ s ∈ segs ∧ d.length = min plen (s.length - o)) ∧
+      p'.off = p.off + d.length ∧ PtrOK segs p' ∧
+      (e = none ∨ (e = some .eof ∧ p'.off = fileSize segs ∧ fileSize segs < p.off + plen)) := by
+  obtain ⟨p1, s, hseek, hoff, hloc⟩ := seek_lt segs hpos p hok hlt
+  have hmem : s ∈ segs := List.mem_of_getElem? hloc.seg
+  have hsin := hin s hmem
+  have hsl := segSlice_length blocks s hsin
+  have hv := vRead_eq blocks s plen p1.segOff (Nat.le_of_lt hloc.lt) hsin
+  -- the data of this read
+  let X := (segSlice blocks s).drop p1.segOff
+  have hXlen : X.length = s.length - p1.segOff := by simp [X, hsl]
+  have hdlen : (X.take plen).length = min plen (s.length - p1.segOff) := by simp [hXlen]
+  have hcontent : (fileContent blocks segs).drop p.off = X ++ fileContent blocks (segs.drop (p1.idx + 1)) := by
+    rw [← hoff, ← hloc.pos]
+    exact fileContent_drop blocks segs hin p1.idx s hloc.seg p1.segOff (Nat.le_of_lt hloc.lt)
+  have hdata : X.take plen = ((fileContent blocks segs).drop p.off).take (X.take plen).length := by
+    rw [hcontent, List.take_append_of_le_length (by rw [List.length_take]; omega), take_take_length]
+  unfold fileRead
+  rw [hseek]
+  simp only [hloc.seg, hv]
+  by_cases hn : (X.take plen).length = 0
+  · -- nothing requested
+    have hpl : plen = 0 := by
+      rw [hdlen] at hn
+      have := hloc.lt
+      omega
+    simp only [X] at hn
+    simp only [hn, if_true]
+    refine ⟨_, _, p1, rfl, ?_, ⟨s, p1.segOff, hloc.lt, hmem, by rw [hdlen]⟩, by simp [hn, hoff], ?_, ?_⟩
+    · exact hdata
+    · exact Or.inr (Or.inr ⟨s, hloc.seg, Nat.le_of_lt hloc.lt, hloc.pos⟩)
+    · left; simp [hpl]
+  · simp only [X] at hn
+    simp only [hn, if_false]
+    by_cases hend : p1.segOff + (List.take plen (List.drop p1.segOff (segSlice blocks s))).length = s.length
+    · -- the read ends exactly at the segment's end: the pointer moves to the next segment
+      simp only [hend, if_true]
+      have hts := fileSize_take_succ segs p1.idx s hloc.seg
+      have hn' : (X.take plen).length = s.length - p1.segOff := by simp only [X]; omega
+      refine ⟨_, _, _, rfl, hdata, ⟨s, p1.segOff, hloc.lt, hmem, by rw [hdlen]⟩, by simp [hoff], ?_, ?_⟩
+      · -- invariant for the moved pointer
+        cases hnext : segs[p1.idx + 1]? with
+        | none =>
+          right; left
+          have hall : segs.take (p1.idx + 1) = segs := List.take_of_length_le (by
+            rw [List.getElem?_eq_none_iff] at hnext; exact hnext)
+          have hpos' := hloc.pos
+          simp only
+          rw [hall] at hts
+          simp only [X] at hn'
+          omega
+        | some t =>
+          right; right
+          refine ⟨t, hnext, Nat.zero_le _, ?_⟩
+          have hpos' := hloc.pos
+          simp only [X] at hn'
+          simp only
+          omega
+      · -- the error
+        by_cases hcut : s.length - p1.segOff < plen
+        · simp only [hcut, if_true]
+          by_cases hmore : p1.idx + 1 < segs.length
+          · left; simp [hmore]
+          · right
+            have hall : segs.take (p1.idx + 1) = segs := List.take_of_length_le (by omega)
+            rw [hall] at hts
+            have hpos' := hloc.pos
+            simp only [X] at hn'
+            refine ⟨by simp [hmore], by omega, by omega⟩
+        · left; simp [hcut]
+    · -- the read ends inside the segment
+      simp only [hend, if_false]
+      have hn' : (X.take plen).length < s.length - p1.segOff := by
+        have := hdlen; simp only [X] at this hend ⊢; omega
+      have hfull : ¬ s.length - p1.segOff < plen := by
+        rw [hdlen] at hn'; omega
+      refine ⟨_, _, _, rfl, hdata, ⟨s, p1.segOff, hloc.lt, hmem, by rw [hdlen]⟩, by simp [hoff], ?_, ?_⟩
+      · right; right
+        refine ⟨s, hloc.seg, ?_, ?_⟩
+        · simp only [X] at hn'; simp only; omega
+        · have hpos' := hloc.pos; simp only; omega
+      · left; rw [if_neg hfull]
+
 end ArvVerif.C03
